@@ -762,3 +762,8 @@ def run(chk, S: Session):
 
     rb = chk.rule("R-C06-B", "the terminal-value routine runs the same loop with the caller's controller, error estimator, clipping flag and options (rule of C05)", floor=6)
     borrow(chk, S, rb, "C05", lambda r, c: r == "R-C05-3" and c.startswith("solve_adaptive_terminal_values"))
+    # an option passed to a constructor arrives in the attribute of its own name (the rules above read options through those attributes)
+    from .ctor_wiring import ctor_wiring_rules
+
+    rcw = chk.rule("R-C06-W", "constructor wiring of the controllers and the rejection loop: every attribute that carries a constructor parameter's name holds that parameter, not another one", floor=12)
+    ctor_wiring_rules(chk, S, rcw, ["probdiffeq._ivpsolve.controllers.control_proportional_integral", "probdiffeq._ivpsolve.controllers.control_integral", ADAPT + ".RejectionLoop"])
